@@ -279,6 +279,7 @@ func runC09(c *Ctx) []Obligation {
 			[]string{`\(\*store/iavl\.MutableTree\)\.(Set|set|Remove|remove|Rollback|LoadVersion|LoadVersionForOverwriting|LazyLoadVersion|GetImmutable|SaveVersion)`, `\(\*store/iavl\.ImmutableTree\)\.clone`, `store/iavl\.NewMutableTree(WithOpts)?`, `store/iavl\.NewImmutableTree(WithOpts)?`},
 			"a tree's root is replaced only by the mutating operations of the working tree, by loading a saved version, and by cloning"),
 	)
+	out = append(out, versionedReadersUseSavedTree(c, P)...)
 	return out
 }
 
